@@ -5,6 +5,8 @@
 -/
 import IgrisModel.Common.Proto
 import IgrisModel.C20.Model
+import IgrisModel.C20.Spur
+import IgrisModel.C20.MainEv
 open Igris.Proto
 namespace Igris.C20.Drv
 
@@ -100,6 +102,17 @@ def grant (d : D) (t : Tid) : D :=
         else { d with s := s', post := upd d.post t (postChar d.s t), trace := d.trace ++ s!"{t}{h} " }
     checkMulti (closure (2 * d.n + 2) d1)
 
+/-- schedule letter: the condition-variable wait of thread `t` returns spuriously
+    (only a thread asleep in the condition variable can be affected) -/
+def spurGrant (d : D) (t : Tid) : D :=
+  match spurious d.s t with
+  | none => { d with trace := d.trace ++ s!"{t}~- " }
+  | some s' => checkMulti (closure (2 * d.n + 2) { d with s := s', trace := d.trace ++ s!"{t}~ " })
+
+/-- schedule token: digit = run thread, letter a.. = spurious return for thread 0.. -/
+def token (d : D) (c : Nat) : D :=
+  if c ≥ 97 then spurGrant d (c - 97) else grant d (c - 48)
+
 def finish : Nat → D → D × String
   | 0, d => (d, "hang")
   | fuel + 1, d =>
@@ -118,7 +131,7 @@ def runCase (progs : List (List Op)) (q0 : List Int) (sched : List Nat) : String
   let n := progs.length
   let s0 := init (fun t => progs.getD t []) (q0.map fun x => (99, x))
   let d0 : D := { s := s0, n := n }
-  let d1 := sched.foldl (fun d t => if d.multi then d else grant d t) d0
+  let d1 := sched.foldl (fun d c => if d.multi then d else token d c) d0
   let d1 := { d1 with trace := d1.trace ++ "| " }
   let (d2, status) := finish 4000 d1
   let obs :=
@@ -140,8 +153,12 @@ def stepLine (_ : Unit) (line : String) : Unit × String :=
   | ["c", progs, ini, sched] =>
     let ps := (progs.splitOn "/").map parseProg
     let q0 := if ini == "-" then [] else (ini.splitOn ",").filterMap String.toInt?
-    let sc := if sched == "-" then [] else sched.toList.map fun c => c.toNat - 48
+    let sc := if sched == "-" then [] else sched.toList.map fun c => c.toNat
     ((), runCase ps q0 sc)
+  | ["e", progs, _, sched] =>
+    let ps := (progs.splitOn "/").map fun p => (p.splitOn ",").filterMap Igris.C20.Ev.Drv.parseOp
+    let sc := if sched == "-" then [] else sched.toList.map fun c => c.toNat
+    ((), Igris.C20.Ev.Drv.runCase ps sc)
   | _ => ((), "bad-op")
 
 end Igris.C20.Drv
